@@ -273,6 +273,12 @@ const allocKey = "$alloc"
 func (q *Q) havocAll(h *Heap, guard Term) *Heap {
 	nh := q.newHeap()
 	q.assume(implies(guard, le(q.heapGet(h, allocKey), q.heapGet(nh, allocKey))))
+	// ghost (specification-only) state changes only through contract clauses that name it
+	for k := range q.so.keySort {
+		if strings.HasPrefix(k, "GH:") {
+			nh.m[k] = q.heapGet(h, k)
+		}
+	}
 	if q.assumeGlobals != nil {
 		q.assumeGlobals(nh)
 	}
